@@ -311,6 +311,7 @@ func runC11(r *vf.Run) {
 	})
 	c11Lifetimes(r)
 	c11TypedIntegers(r)
+	c11Lookalikes(r)
 	racePass(r)
 	r.Floor("Prepare and direct path both used", r.Covered("paths") == 2)
 	r.Floor("too-few, exact and too-many argument lists all seen", r.Covered("argument_counts") == 3)
